@@ -1,4 +1,7 @@
 #![cfg_attr(coverage_nightly, feature(coverage_attribute))]
+#![allow(unexpected_cfgs)]
 
 pub mod convert;
 pub mod data;
+#[cfg(truc_verif)]
+pub mod verif;
